@@ -270,18 +270,31 @@ def run(ctx: Any, prog: Program) -> None:
         ctx.check('C04.A3', l == r, mt, vr, f'(v@A)@B != v@(A@B) in component {c} with the formulas as written', text=f'associativity[{c}]')
 
     # ---- A1 / A2 -------------------------------------------------------------------------------------
+    class RawMat:
+        """value of `cls._from_raw(<nine entries in row order>)`"""
+        def __init__(self, args: List[Any]) -> None:
+            self.entries = dict(zip(SLOTS, args))
+
     def hook_new(n: ast.Call, a: List[Any]) -> Any:
-        d = dotted(n.func) or ''
+        d = ast.unparse(n.func)
         if d.endswith('__new__'):
             return Poly.sym('<obj>')
+        if d.endswith('._from_raw') and len(a) == 9 and all(isinstance(x, Poly) for x in a):
+            return RawMat(a)
         return None
+    hook_new.wants_args = True      # type: ignore[attr-defined]
+
+    def entries_of(pth: Any) -> Dict[str, Poly]:
+        if isinstance(pth.ret, RawMat):
+            return pth.ret.entries
+        return entries_from_env(pth.env, 'rot._')
 
     def single(name: str) -> Dict[str, Poly]:
         fn = mt.func('MatrixBase.' + name)
         r = PolyInterp(ROLES.get, filename=mt.relpath, call_hook=hook_new).run(expand_trig_helpers(ctx, mt, 'MatrixBase.' + name, body_of(fn)))
         if len(r) != 1:
             raise AnalysisError(f'{name} is not straight-line code')
-        return entries_from_env(r[0].env, 'rot._')
+        return entries_of(r[0])
     Mp, My, Mr = single('from_pitch'), single('from_yaw'), single('from_roll')
     fa = mt.func('MatrixBase.from_angle')
 
@@ -293,7 +306,7 @@ def run(ctx: Any, prog: Program) -> None:
     product = mat_product(form, mat_product(form, Mr, Mp), My)
     FA: Optional[Dict[str, Poly]] = None
     for pi, pth in enumerate(paths):
-        ent = entries_from_env(pth.env, 'rot._')
+        ent = entries_of(pth)
         FA = ent
         for s in SLOTS:
             ctx.check('C04.A1', nf(ent[s]) == nf(product[s]), mt, fa,
